@@ -14,6 +14,7 @@ import sys, os, json, subprocess, time, hashlib, shutil, tempfile, re, argparse,
 
 VERIF = os.path.dirname(os.path.dirname(os.path.abspath(__file__)))
 REPO = os.environ.get('VERIF_REPO', '/repo')
+OUTDIR = os.environ.get('VERIF_OUT', VERIF)      # evidence/ and replays/ go here (seeded-change runs use a scratch dir)
 sys.path.insert(0, os.path.join(VERIF, 'tools'))
 sys.path.insert(0, VERIF)
 
@@ -279,6 +280,8 @@ def run_obligation(build, ob, tier, replay_dir, prop):
     t0 = time.time()
     try:
         unit = build.unit(ob.harness, defines, ob.opt, ob.ub, ob.redirect, ob.footprint, (), ob.vcall)
+        if ob.footprint and '-DVERIF_FOOTPRINT' not in ob.extra:
+            ob.extra = tuple(ob.extra) + ('-DVERIF_FOOTPRINT',)
         res, out = run_cbmc(unit['c'], ob.entry, unwind, ob.unwindset, ob.timeout, ob.mem_gb, ob.extra)
         r['cbmc'] = {k: res[k] for k in ('time_s', 'status') if k in res}
         r['cbmc']['properties'] = res.get('properties', 0)
@@ -324,7 +327,7 @@ def run_obligation(build, ob, tier, replay_dir, prop):
                                    'nondet_values_in_call_order': vals, 'cbmc_failed': res['failed'][:10], 'native_replay': r['replay'],
                                    'how_to_replay': 'python3 tools/vcheck.py %s --replay %s' % (prop, os.path.relpath(rp, VERIF))}, f, indent=1)
                     os.unlink(vf)
-                    r['replay_path'] = os.path.relpath(rp, VERIF)
+                    r['replay_path'] = os.path.relpath(rp, OUTDIR)
         else:
             r['status'] = 'holds'
         # witness twin: must be violated, and only at the WITNESS assertion
@@ -372,7 +375,7 @@ def translation_validation(build, obls, tier, seeds):
     samples = []
     for ob in obls:
         defines = list(ob.defines_thorough if (tier == 'thorough' and ob.defines_thorough is not None) else ob.defines)
-        if any('@self' in r for r in ob.redirect) or ob.ub or not ob.opt.startswith('-O1') or ob.kind != 'cbmc' or ob.footprint:
+        if ob.redirect or ob.ub or not ob.opt.startswith('-O1') or ob.kind != 'cbmc' or ob.footprint:   # (call redirection exists only in the translated unit)
             continue
         key = (ob.harness, tuple(defines), ob.entry)
         if key in done:
@@ -406,7 +409,7 @@ def check_property(prop, tier, seed, only=None, keep=False, jobs=NCPU):
     scratch = tempfile.mkdtemp(prefix='vcheck_%s_' % prop, dir=os.environ.get('TMPDIR', '/tmp'))
     build = Build(scratch)
     known = load_known()
-    replay_dir = os.path.join(VERIF, 'replays', prop)
+    replay_dir = os.path.join(OUTDIR, 'replays', prop)
     obls = [o for o in spec['obligations'] if tier in o.tiers and (only is None or o.name in only)]
     results = []
     rc = 0
@@ -484,8 +487,8 @@ def check_property(prop, tier, seed, only=None, keep=False, jobs=NCPU):
         'assumptions': spec.get('assumptions', []) + COMMON_ASSUMPTIONS,
         'wall_s': round(wall, 1), 'violations': viol,
     }
-    os.makedirs(os.path.join(VERIF, 'evidence'), exist_ok=True)
-    with open(os.path.join(VERIF, 'evidence', prop + '.json'), 'w') as f:
+    os.makedirs(os.path.join(OUTDIR, 'evidence'), exist_ok=True)
+    with open(os.path.join(OUTDIR, 'evidence', prop + '.json'), 'w') as f:
         json.dump(ev, f, indent=1)
     for l in lines:
         print(l)
